@@ -285,6 +285,42 @@ theorem evictions_are_invisible {cfg : Cfg} (hp : cfg.Purges) {s : CLdb} {h : Li
   obtain ⟨a, b, c⟩ := answers_depend_only_on_store hp hr' hr hldb hst hs
   exact ⟨hr', hldb, a, b, c⟩
 
+/-- whole runs. For EVERY list of operations (commits, stale commits, pops, gets, evictions, stop in any order) whose commits on
+    the frontier satisfy the side conditions (`ValidU`, stated on the cache-free manager), the cached manager started empty
+    gives, operation by operation, the answer the cache-free manager gives: ok / error for `Add` and `Pop`, and for `Get`
+    the same root (compared as the root with the overlay pointer dereferenced after the call) -/
+theorem cached_run_eq_uncached_run {cfg : Cfg} (hp : cfg.Purges) (ops : List COp)
+    (hv : ValidU [] (Ldb.empty, false) ops) :
+    answersC cfg CLdb.empty ops = answersU (Ldb.empty, false) ops :=
+  answersC_eq_answersU hp ops (s := CLdb.empty) CInv.init hv
+
+/-- `evictions_are_invisible`, whole-schedule form: two runs that differ only in their evictions — where, how many, of which
+    entries of which level: i.e. ANY replacement policy and ANY capacities — give the same answers to all their other
+    operations -/
+theorem eviction_schedules_are_invisible {cfg : Cfg} (hp : cfg.Purges) (ops ops' : List COp)
+    (he : dropEvicts ops = dropEvicts ops') (hv : ValidU [] (Ldb.empty, false) ops) :
+    loud (answersC cfg CLdb.empty ops) = loud (answersC cfg CLdb.empty ops') := by
+  have hv' : ValidU [] (Ldb.empty, false) ops' :=
+    (validU_dropEvicts ops' _ _).2 (he ▸ (validU_dropEvicts ops _ _).1 hv)
+  rw [cached_run_eq_uncached_run hp ops hv, cached_run_eq_uncached_run hp ops' hv', answersU_dropEvicts ops,
+    answersU_dropEvicts ops', he]
+
+/-- non-vacuity of `ValidU`: two commits, version 1 opened, its entry evicted, opened again, a pop — a valid run -/
+example : ValidU [] (Ldb.empty, false)
+    [.add Id.zero ⟨1, [7]⟩ [Op.put [9] [1]], .add ⟨1, [7]⟩ ⟨2, [8]⟩ [Op.put [10] [2]], .get ⟨1, [7]⟩,
+     .evict true ⟨1, [7]⟩, .get ⟨1, [7]⟩, .pop] := by
+  refine ⟨fun _ _ => ⟨⟨by decide, by decide⟩, by simp, by decide⟩, fun _ _ => ⟨⟨by decide, by decide⟩, ?_, by decide⟩,
+    trivial, trivial, trivial, trivial, trivial⟩
+  intro v hv
+  have : v ∈ [commitVer [] ⟨1, [7]⟩ [Op.put [9] [1]]] := by
+    have hg : ghostU [] (Ldb.empty, false) (.add Id.zero ⟨1, [7]⟩ [Op.put [9] [1]]) =
+        [commitVer [] ⟨1, [7]⟩ [Op.put [9] [1]]] := by
+      simp only [ghostU]; rw [if_pos (by decide)]
+    rw [hg] at hv; exact hv
+  simp only [List.mem_singleton] at this
+  subst this
+  simp [commitVer]
+
 /-- a cache entry is valid for the chain `h`: it is filed under a version of the chain, tagged with a version of the
     chain that is not older, and its object is the overlay for that version folded up to some height between the tag and
     the frontier -/
